@@ -336,7 +336,9 @@ func (ans *answer) sendException(e error) releaseList {
 //
 // shutdown has its own strategy for cleaning up an answer.
 func (ans *answer) destroy() (releaseList, error) {
-	delete(ans.c.answers, ans.id)
+	if ans.c.answers[ans.id] == ans { // (the ID may have been reused already, see handleFinish)
+		delete(ans.c.answers, ans.id)
+	}
 	rl := releaseList(ans.resultCapTable)
 	if ans.flags&releaseResultCapsFlag == 0 || len(ans.exportRefs) == 0 {
 		return rl, nil
